@@ -1,7 +1,9 @@
 #!/usr/bin/env python3
 """Run every stored seeded change against the quick check of its property (tools/try_seed.sh, scratch
 worktree + VERIF_REPO) and write seeded/RESULTS.json + seeded/RESULTS.md.
-usage: tools/seed_ledger.py [-j N] [seed ids...]"""
+usage: tools/seed_ledger.py [-j N] [seed ids...]
+With LEDGER_OUT=<name> the results go to seeded/<name>.json/.md instead (used for the second pass with another
+VERIF_SEED, which shows which verdicts depend on the random stream)."""
 import concurrent.futures
 import json
 import os
@@ -72,7 +74,8 @@ def main():
         j = int(args[1])
         args = args[2:]
     seeds = args or sorted(d for d in os.listdir(os.path.join(V, "seeded")) if os.path.isdir(os.path.join(V, "seeded", d)))
-    path = os.path.join(V, "seeded", "RESULTS.json")
+    name = os.environ.get("LEDGER_OUT", "RESULTS")
+    path = os.path.join(V, "seeded", name + ".json")
     res = json.load(open(path)) if os.path.exists(path) else {}
     with concurrent.futures.ThreadPoolExecutor(max_workers=j) as ex:
         futs = {s: ex.submit(run, s) for s in seeds}
@@ -90,8 +93,9 @@ def main():
                     res[s]["by"] = r.get("by", "")
                 print(s, "on", prop, r["verdict"], flush=True)
     json.dump(res, open(path, "w"), indent=1, sort_keys=True)
-    with open(os.path.join(V, "seeded", "RESULTS.md"), "w") as f:
-        f.write("# Seeded changes: verdict of `./check <property> --tier quick` with the change applied\n\n")
+    with open(os.path.join(V, "seeded", name + ".md"), "w") as f:
+        f.write("# Seeded changes: verdict of `./check <property> --tier quick` with the change applied"
+                f" (VERIF_SEED={os.environ.get('VERIF_SEED', '1')})\n\n")
         f.write("| seed | first run | final | caught by |\n|---|---|---|---|\n")
         for s in sorted(res):
             f.write(f"| {s} | {res[s].get('first')} | {res[s]['verdict']} | {res[s].get('by', '')} |\n")
